@@ -124,6 +124,14 @@ ares_htable_t *ares_htable_create(ares_htable_hashfunc_t    hash_func,
   htable->bucket_free = bucket_free;
   htable->key_eq      = key_eq;
   htable->seed        = ares_htable_generate_seed(htable);
+#ifdef CARES_VERIF_HOOKS
+  if (ares_verif_hooks.htable_seed != NULL) {
+    unsigned int verif_seed = 0;
+    if (ares_verif_hooks.htable_seed(&verif_seed)) {
+      htable->seed = verif_seed;
+    }
+  }
+#endif
   htable->size        = ARES__HTABLE_MIN_BUCKETS;
   htable->buckets = ares_malloc_zero(sizeof(*htable->buckets) * htable->size);
 
